@@ -28,7 +28,7 @@ func init() {
 			c.Rep.floor("G1", 350)
 			runR_C01(c)
 		},
-		explanation: "Structural necessary conditions of C01 decided statically: (G11) the work list cannot report success before every generator is Done and name lookup answers only under the type comparison; (G1) no generator error is dropped or swallowed; (G8) every plugin is registered once, every deps[...] key is bound and every discovered call reaches Add or the deferred list; (G13) Field.Private agrees with Go's exportedness on every class of first characters and unvendor strips whole vendor path elements only; (Engine R) every accepted abstract run of every plugin emits text that parses and gofmt-s (R1), refers only to holes / universe names / identifiers it declares (R2), uses exactly the imports it requested (R3), marks what it generates (Generating must-pass-through) and, where kinds are determined, type-checks against the documented helper signatures (R4, thorough). Not decided: import-alias collisions, the multi-pass reload loop, _test files, shapes beyond the stated bounds. Added: (R4, every tier) every accepted run of every plugin — also runs whose text repeats but whose holes stand for other types — is type-checked with go/types against declarations built from the path (kinds, exact basic kinds, struct fields incl. a blank first field, defined vs literal types, identities, directional assignability, user methods found by the lookup predicates, documented helper signatures); runs the model cannot express are counted as untyped. (G12) HasUndefined examines whole types; (G14) the finder always continues into the children of a node; (G16) every load includes test files, tolerates errors, and nobody reads a package's Errors list; (R1) no blank field is selected, unsafe casts use the field's own type.",
+		explanation: "Structural necessary conditions of C01 decided statically: (G11) the work list cannot report success before every generator is Done and name lookup answers only under the type comparison; (G1) no generator error is dropped or swallowed; (G8) every plugin is registered once, every deps[...] key is bound and every discovered call reaches Add or the deferred list; (G13) Field.Private agrees with Go's exportedness on every class of first characters and unvendor strips whole vendor path elements only; (Engine R) every accepted abstract run of every plugin emits text that parses and gofmt-s (R1), refers only to holes / universe names / identifiers it declares (R2), uses exactly the imports it requested (R3), marks what it generates (Generating must-pass-through) and, where kinds are determined, type-checks against the documented helper signatures (R4, thorough). Not decided: import-alias collisions, the multi-pass reload loop, _test files, shapes beyond the stated bounds. Added: (R4, every tier) every accepted run of every plugin — also runs whose text repeats but whose holes stand for other types — is type-checked with go/types against declarations built from the path (kinds, exact basic kinds, struct fields incl. a blank first field, defined vs literal types, identities, directional assignability, user methods found by the lookup predicates, documented helper signatures); runs the model cannot express are counted as untyped. (G12) HasUndefined examines whole types; (G14) the finder always continues into the children of a node; (G16) every load includes test files, tolerates errors, and nobody reads a package's Errors list; (R1) no blank field is selected, unsafe casts use the field's own type. Fourth session: FieldStrings interpreted; struct tags containing a percent sign in the input space; mangled twin for type text in format position; alternative basic kinds / untyped nil / slice / channel-direction declarations for whatever a path left open (each alternative a possible input: a type error is a definite compile error for it); (G14) reserved set complete before naming; (G9) canEqual/canCopy/IsComparable tabulated; (G8) every recorded call becomes a call record.",
 		assumptions: commonAssumptions,
 		technique:   "custom static analysis: CFG dominance lints over the driver + abstract interpretation of plugins into residual programs checked with go/parser, go/format and go/types",
 	}
@@ -58,13 +58,13 @@ func init() {
 	}
 	checks["C13"] = &checkDef{
 		run:         runR_C13,
-		explanation: "Engine R on sort/keys/min/max: sort sorts its own argument in place with package sort and returns it; sort.Strings/Ints/Float64s only on paths that established the exact basic type; sort.Slice's less function is tabulated over element-pair orderings (irreflexive, asymmetric, ascending; indexes only the sorted slice; mirror operands in (i, j) order). keys ranges over the map, appends every range key exactly once unconditionally and returns that slice. min/max: two-value forms tabulated (returns the preceding / following argument); list forms: early return of the default only for an empty list, accumulator seeded and replaced only by list elements, replaced exactly when the new element precedes (min) / follows (max) it and by that very element; min and max residuals mirror each other (R9). R5b: `<`/`>` between values only after an ordered basic kind was established. Not decided: that sort.Slice sorts (stdlib), permutation-ness beyond in-place stdlib sort.",
+		explanation: "Engine R on sort/keys/min/max: sort sorts its own argument in place with package sort and returns it; sort.Strings/Ints/Float64s only on paths that established the exact basic type; sort.Slice's less function is tabulated over element-pair orderings (irreflexive, asymmetric, ascending; indexes only the sorted slice; mirror operands in (i, j) order). keys ranges over the map, appends every range key exactly once unconditionally and returns that slice. min/max: two-value forms tabulated (returns the preceding / following argument); list forms: early return of the default only for an empty list, accumulator seeded and replaced only by list elements, replaced exactly when the new element precedes (min) / follows (max) it and by that very element; min and max residuals mirror each other (R9). R5b: `<`/`>` between values only after an ordered basic kind was established. Not decided: that sort.Slice sorts (stdlib), permutation-ness beyond in-place stdlib sort. Added: two-value form of min/max only under types.Identical.",
 		assumptions: append([]string{"a compare helper returns the sign of the ordering of its operands; package sort sorts"}, commonAssumptions...),
 		technique:   "abstract interpretation into residual programs + ordering-table evaluation of less/min/max decisions + structural loop rules",
 	}
 	checks["C14"] = &checkDef{
 		run:         runR_C14,
-		explanation: "Engine R on contains/unique/set/union/intersect/filter/takewhile/all/any: guard→effect obligations on each residual, decided with the guard set (conditions with polarity that hold at a statement: enclosing ifs and negations of earlier leaving ifs). contains: `return true` only under an equality test (== licensed by canEqual, else the derived equal helper) of the current element and the item, `return false` only after the loop; union/intersect: the single append/insert is of the current element, into the right result, only under ¬contains(this, v) / contains(that, v) / a comma-ok lookup; filter: slot write list[j]=list[i] and j++ only under predicate(elem), result list[:j]; takewhile: break only under ¬predicate, append only under predicate; all/any: inner/outer constants and polarity; predicate called exactly once per iteration on the range element, forward range; set inserts every element; unique: membership only through derived Equal against an element drawn from the bucket of the element's own derived Hash, write cursor/slot/table updated only for first occurrences, the table records the write cursor. Inputs are not written except by the documented in-place helpers. G9 tabulates contains.canEqual and derive.IsComparable. Not decided: set semantics as such, order of keys(set(..)).",
+		explanation: "Engine R on contains/unique/set/union/intersect/filter/takewhile/all/any: guard→effect obligations on each residual, decided with the guard set (conditions with polarity that hold at a statement: enclosing ifs and negations of earlier leaving ifs). contains: `return true` only under an equality test (== licensed by canEqual, else the derived equal helper) of the current element and the item, `return false` only after the loop; union/intersect: the single append/insert is of the current element, into the right result, only under ¬contains(this, v) / contains(that, v) / a comma-ok lookup; filter: slot write list[j]=list[i] and j++ only under predicate(elem), result list[:j]; takewhile: break only under ¬predicate, append only under predicate; all/any: inner/outer constants and polarity; predicate called exactly once per iteration on the range element, forward range; set inserts every element; unique: membership only through derived Equal against an element drawn from the bucket of the element's own derived Hash, write cursor/slot/table updated only for first occurrences, the table records the write cursor. Inputs are not written except by the documented in-place helpers. G9 tabulates contains.canEqual and derive.IsComparable. Not decided: set semantics as such, order of keys(set(..)). Added: contains leaves an iteration only after comparing the element; Hash/Equal lookups tabulated.",
 		assumptions: commonAssumptions,
 		technique:   "abstract interpretation into residual programs + guard-set (polarity) effect rules on the residual ASTs; predicate tabulation",
 	}
@@ -76,7 +76,7 @@ func init() {
 	}
 	checks["C16"] = &checkDef{
 		run:         runR_C16,
-		explanation: "Engine R on compose, the error forms of fmap and join, traverse and toerror, for 2..3 stages x 0..2 intermediate/final results (arity bounds) and every zero-value kind: (R13) every stage function is called exactly once, in straight-line code, in data-flow order, with exactly the values the previous step produced, in order; each failing-capable stage's error variable is tested immediately after the call and the failure branch returns that very variable with only zero literals next to it; a failing-capable stage is never tail-called or called inside a function literal; the success path returns the last stage's values and nil. traverse: f once per element on the range element, result stored at the element's index, `return nil, err` immediately after the call. toerror: f once with the closure's parameters in order, other results passed through unchanged, nil only under success and the supplied error only under ¬success. derive.Zero is tabulated over go/types kinds (nil only for nilable underlying kinds). Not decided: identity of error objects at run time beyond variable identity, user function behaviour.",
+		explanation: "Engine R on compose, the error forms of fmap and join, traverse and toerror, for 2..3 stages x 0..2 intermediate/final results (arity bounds) and every zero-value kind: (R13) every stage function is called exactly once, in straight-line code, in data-flow order, with exactly the values the previous step produced, in order; each failing-capable stage's error variable is tested immediately after the call and the failure branch returns that very variable with only zero literals next to it; a failing-capable stage is never tail-called or called inside a function literal; the success path returns the last stage's values and nil. traverse: f once per element on the range element, result stored at the element's index, `return nil, err` immediately after the call. toerror: f once with the closure's parameters in order, other results passed through unchanged, nil only under success and the supplied error only under ¬success. derive.Zero is tabulated over go/types kinds (nil only for nilable underlying kinds). Not decided: identity of error objects at run time beyond variable identity, user function behaviour. Added: nil error only where the supplied error was established nil.",
 		assumptions: commonAssumptions,
 		technique:   "abstract interpretation into residual programs + straight-line chain analysis and guard-set rules on the residual ASTs; tabulation of derive.Zero",
 	}
@@ -88,13 +88,13 @@ func init() {
 	}
 	checks["C18"] = &checkDef{
 		run:         runR_C18,
-		explanation: "Engine R on mem for parameter arities 0..2 x result arities 0..2, comparable and not, every parameter naming: (R15) the returned closure contains exactly one call of f, with its own parameters in order, at the top level of its body (the miss path); the table is created once outside the closure; it is keyed by the argument (or an input struct of all arguments in order) only on paths where IsComparable was established, otherwise by the derived hash of that key, and then a hit requires derived Equal of a stored key with the arguments among the entries of that very bucket; every return before the call is under such a hit; after the call the results are stored under the key that was looked up — in the bucket form by appending to the current table entry, never to a snapshot taken before f ran — and returned in order; zero-argument form: a flag initially false guards the call and is set after it. G9 tabulates derive.IsComparable. Not decided: the hash/equal contract itself (C04), concurrency (not promised).",
+		explanation: "Engine R on mem for parameter arities 0..2 x result arities 0..2, comparable and not, every parameter naming: (R15) the returned closure contains exactly one call of f, with its own parameters in order, at the top level of its body (the miss path); the table is created once outside the closure; it is keyed by the argument (or an input struct of all arguments in order) only on paths where IsComparable was established, otherwise by the derived hash of that key, and then a hit requires derived Equal of a stored key with the arguments among the entries of that very bucket; every return before the call is under such a hit; after the call the results are stored under the key that was looked up — in the bucket form by appending to the current table entry, never to a snapshot taken before f ran — and returned in order; zero-argument form: a flag initially false guards the call and is set after it. G9 tabulates derive.IsComparable. Not decided: the hash/equal contract itself (C04), concurrency (not promised). Added: Hash/Equal lookups tabulated; hash float-leaf rule (known finding shared with C04).",
 		assumptions: commonAssumptions,
 		technique:   "abstract interpretation into residual programs + guard-set protocol rules on the residual ASTs; predicate tabulation",
 	}
 	checks["C19"] = &checkDef{
 		run:         runR_C19,
-		explanation: "Engine R on fmap-over-channel, the channel forms of join (slice of channels, channel of channels, variadic select; both channel directions), dup and pipeline: typestate/pairing rules on the residual CFGs and closure tree. T1 every channel made and returned is closed at exactly one site, in a goroutine, outside any loop, on every path of that goroutine (post-dominance; defer accepted); T2 no send reachable after the close in the same goroutine; T3 every other sending goroutine is counted by Add before its go statement (dominance in the spawner), calls Done on every path, and Wait dominates the close, with no spawn reachable after Wait; T4 each receive loop forwards the received item (or f of it) exactly once on every output, unconditionally, without break/return; T5 the combinator's own body performs no blocking channel operation; T6 select form: the loop runs while some input is non-nil over exactly the selected inputs, each case disables only its own input and only when it was found closed, and sends only when it was not; T7 goroutines spawned in a loop do not refer to the loop variables directly; T8 a variable written in a goroutine is not used by another goroutine; pipeline is exactly join(fmap(g, f(a))). Not decided: an exploration of interleavings, global deadlock freedom, buffer-capacity effects, goroutine leaks when consumers stop.",
+		explanation: "Engine R on fmap-over-channel, the channel forms of join (slice of channels, channel of channels, variadic select; both channel directions), dup and pipeline: typestate/pairing rules on the residual CFGs and closure tree. T1 every channel made and returned is closed at exactly one site, in a goroutine, outside any loop, on every path of that goroutine (post-dominance; defer accepted); T2 no send reachable after the close in the same goroutine; T3 every other sending goroutine is counted by Add before its go statement (dominance in the spawner), calls Done on every path, and Wait dominates the close, with no spawn reachable after Wait; T4 each receive loop forwards the received item (or f of it) exactly once on every output, unconditionally, without break/return; T5 the combinator's own body performs no blocking channel operation; T6 select form: the loop runs while some input is non-nil over exactly the selected inputs, each case disables only its own input and only when it was found closed, and sends only when it was not; T7 goroutines spawned in a loop do not refer to the loop variables directly; T8 a variable written in a goroutine is not used by another goroutine; pipeline is exactly join(fmap(g, f(a))). Not decided: an exploration of interleavings, global deadlock freedom, buffer-capacity effects, goroutine leaks when consumers stop. Added: after Add(1) no path reaches the next Add or the Wait without the go statement.",
 		assumptions: append([]string{"Go memory model: channel operations and WaitGroup provide the happens-before edges the rules pair up"}, commonAssumptions...),
 		technique:   "abstract interpretation into residual programs + channel/WaitGroup typestate and pairing rules on go/cfg graphs (dominance, post-dominance, reachability) of the residual closures",
 	}
@@ -106,7 +106,7 @@ func init() {
 	}
 	checks["C06"] = &checkDef{
 		run:         runR_C06,
-		explanation: "Engine R on gostring — second-stage well-formedness: for every residual the fmt.Fprintf statements are walked along every structured path (each if both ways, each loop 0/1 times; thorough 0/1/2), their format strings concatenated with verbs replaced by placeholders (%#v a value, %d the iteration number, %s a nested derived GoString call); on every path the printed text must parse as an immediately invoked `func() T { … }()`, use only identifiers it declared before, and end in a return; type names in printed text come from the package-qualifying (bypass) printer while the function's own signature uses the ordinary one; a type printed under a pointer constructor (*T, new(T), &T{}) is the component's declared type, never its Underlying(); %s operands are nested gostring calls and values use %#v; a nil pointer/slice/map is printed as `return nil`; every field of an inlined struct is printed (R19). Not decided: %#v's escaping (stdlib), value round-trip, unexported fields.",
+		explanation: "Engine R on gostring — second-stage well-formedness: for every residual the fmt.Fprintf statements are walked along every structured path (each if both ways, each loop 0/1 times; thorough 0/1/2), their format strings concatenated with verbs replaced by placeholders (%#v a value, %d the iteration number, %s a nested derived GoString call); on every path the printed text must parse as an immediately invoked `func() T { … }()`, use only identifiers it declared before, and end in a return; type names in printed text come from the package-qualifying (bypass) printer while the function's own signature uses the ordinary one; a type printed under a pointer constructor (*T, new(T), &T{}) is the component's declared type, never its Underlying(); %s operands are nested gostring calls and values use %#v; a nil pointer/slice/map is printed as `return nil`; every field of an inlined struct is printed (R19). Not decided: %#v's escaping (stdlib), value round-trip, unexported fields. Added: %#v on a composite only when every component was established basic (also on duplicate-text runs).",
 		assumptions: commonAssumptions,
 		technique:   "abstract interpretation into residual programs + path-wise assembly and go/parser analysis of the text the residual prints (two-stage well-formedness)",
 	}
@@ -140,7 +140,7 @@ func init() {
 			g14ReservedProvenance(c)
 			c.Rep.floor("G6", 8)
 		},
-		explanation: "G6: every range over a Go map in main/derive/plugin/* is classified (insert-only / constant reduction / append-then-sort are order-insensitive; first-match returns, emission or unsorted appends are violations); no package-level variable is written outside main/init and no package-level reference value escapes into per-package state; no clock/random/environment/goroutine input; printers, qualifiers, type tables and generators are constructed in newPackage only. Not decided: ordering inside go/loader and gotool (third-party), path-spelling independence, timing. Added: the callees of every order-insensitive map loop are effect-free (whole-repository may-have-effect analysis over static, interface and function-value calls; one exempted edge with its argument); nothing is ordered by token.Pos (expected count 0, with a built-in positive example); reserved names do not depend on the previous output.",
+		explanation: "G6: every range over a Go map in main/derive/plugin/* is classified (insert-only / constant reduction / append-then-sort are order-insensitive; first-match returns, emission or unsorted appends are violations); no package-level variable is written outside main/init and no package-level reference value escapes into per-package state; no clock/random/environment/goroutine input; printers, qualifiers, type tables and generators are constructed in newPackage only. Not decided: ordering inside go/loader and gotool (third-party), path-spelling independence, timing. Added: the callees of every order-insensitive map loop are effect-free (whole-repository may-have-effect analysis over static, interface and function-value calls; one exempted edge with its argument); nothing is ordered by token.Pos (expected count 0, with a built-in positive example); reserved names do not depend on the previous output. Added: G10 (every user file listed; print-or-delete on (*pkg).Filename()).",
 		assumptions: commonAssumptions,
 		technique:   "custom static analysis: typed-AST classification of map iterations, global-state and nondeterministic-input lint, who-may-call for constructors",
 	}
@@ -157,7 +157,7 @@ func init() {
 			runG9(c, "equal.canEqual", "deepcopy.canCopy", "contains.canEqual", "derive.IsComparable")
 			runR_C09(c)
 		},
-		explanation: "G1: every error-returning call in main/derive/plugin/* (412 on the pinned tree) is returned, or tested with the non-nil branch ending in a non-nil error return / fatal exit; drops, blank assignments, swallows (`if err != nil { return nil }`) and error branches that stay inside a work loop are violations. G12: (*call).HasUndefined is tabulated over go/types kinds — on every path that answers `fully defined` it examined the whole type (String() rendering or every constituent), so unresolved argument types are always deferred. Engine R: no abstract run of any plugin (including runs Add rejects) hits a definite generator panic (index out of the established length, unchecked type assertion on an unrefined kind, Out underflow, explicit panic); no accepted run emits unparsable text; unsupported constituents (chan/func/interface) at every position of the structural plugins end in generator-error runs; operators are emitted only for kinds that support them. Not decided: termination of the reload loop, panics inside third-party code, broken user files. Added: (G15) constant offsets in the driver lie within an established length; (G14) Obj().Pkg() is nil-checked before use (IsExternal only on struct-kinded types, enforced by the interpreter); (G16) the finder records a call only after asserting call.Fun itself to be an identifier; recursion in a generator makes progress (re-entry with the same type arguments = definite non-termination); canEqual/canCopy/IsComparable tabulated incl. blank fields; (R4) every accepted run type-checks, as in C01.",
+		explanation: "G1: every error-returning call in main/derive/plugin/* (412 on the pinned tree) is returned, or tested with the non-nil branch ending in a non-nil error return / fatal exit; drops, blank assignments, swallows (`if err != nil { return nil }`) and error branches that stay inside a work loop are violations. G12: (*call).HasUndefined is tabulated over go/types kinds — on every path that answers `fully defined` it examined the whole type (String() rendering or every constituent), so unresolved argument types are always deferred. Engine R: no abstract run of any plugin (including runs Add rejects) hits a definite generator panic (index out of the established length, unchecked type assertion on an unrefined kind, Out underflow, explicit panic); no accepted run emits unparsable text; unsupported constituents (chan/func/interface) at every position of the structural plugins end in generator-error runs; operators are emitted only for kinds that support them. Not decided: termination of the reload loop, panics inside third-party code, broken user files. Added: (G15) constant offsets in the driver lie within an established length; (G14) Obj().Pkg() is nil-checked before use (IsExternal only on struct-kinded types, enforced by the interpreter); (G16) the finder records a call only after asserting call.Fun itself to be an identifier; recursion in a generator makes progress (re-entry with the same type arguments = definite non-termination); canEqual/canCopy/IsComparable tabulated incl. blank fields; (R4) every accepted run type-checks, as in C01. Fourth session: R4 alternatives as in C01; (G23) generatePackage returns nil only where no call is left undefined; (G24) nil first argument rejected in (*pkg).Add.",
 		assumptions: commonAssumptions,
 		technique:   "custom static analysis: CFG-based error-flow lint + abstract interpretation of plugin Add/Generate with definite-panic detection",
 	}
@@ -194,7 +194,7 @@ func init() {
 			runG5(c.Repo, c.Rep)
 			c.Rep.floor("G7", 40)
 		},
-		explanation: "G7: SetFuncName's structured control flow is enumerated path by path over the atoms {name-of-types hit, hit==requested, requested bound, bound types eq, dedup, autoname}; each of the 36 consistent states must yield exactly the outcome the property prescribes (requested / existing only with -dedup / fresh only with -autoname / error / register in both tables). newName returns a candidate that was tested after its last update against both funcToTyps and reserved, built from the current prefix; GetFuncName registers exactly the name it returns; the reserved set is complete before any table uses it; nameOf answers only under eq (G11). Not decided: eq uses assignability rather than identity (outside the property's pairwise-non-assignable quantifier); type-correctness after renaming (C01). Added: (G16) eq evaluated abstractly on lists of lengths (1,2),(2,1),(0,1),(1,0),(2,3),(1,1),(2,2): false for different lengths, true when every pairwise test succeeds; (G14) the name returned by Add reaches the call identifier at every call site; (G4/G5) the rewrite truncates and prints the file's own tree; reserved names come from user files only.",
+		explanation: "G7: SetFuncName's structured control flow is enumerated path by path over the atoms {name-of-types hit, hit==requested, requested bound, bound types eq, dedup, autoname}; each of the 36 consistent states must yield exactly the outcome the property prescribes (requested / existing only with -dedup / fresh only with -autoname / error / register in both tables). newName returns a candidate that was tested after its last update against both funcToTyps and reserved, built from the current prefix; GetFuncName registers exactly the name it returns; the reserved set is complete before any table uses it; nameOf answers only under eq (G11). Not decided: eq uses assignability rather than identity (outside the property's pairwise-non-assignable quantifier); type-correctness after renaming (C01). Added: (G16) eq evaluated abstractly on lists of lengths (1,2),(2,1),(0,1),(1,0),(2,3),(1,1),(2,2): false for different lengths, true when every pairwise test succeeds; (G14) the name returned by Add reaches the call identifier at every call site; (G4/G5) the rewrite truncates and prints the file's own tree; reserved names come from user files only. Added: every recorded call becomes its own record (G8), reserved set complete before naming (G14), argument types never from the callee's declaration (G17 clause 2).",
 		assumptions: commonAssumptions,
 		technique:   "custom static analysis: decision-table extraction by path enumeration over the typed AST, loop-exit and dominance rules",
 	}
@@ -204,7 +204,7 @@ func init() {
 			c.Rep.floor("G8", 150)
 			runR_C12(c)
 		},
-		explanation: "G8: 33 NewPlugin registrations with unique names, unique default prefixes each starting with exactly one \"derive\" (so -prefix substitution is a pure renaming), all listed once in main, all deps keys bound; SetPrefix only from main before NewPlugins; the prefix is strings.Replace(default,\"derive\",*prefix,1) or the verbatim override; NewPlugins sorts before storing; the sort comparator is tabulated over the finite orderings of (length, string) and must be longest-first, irreflexive, asymmetric, total on equal lengths, and may index only the slice being sorted; both dispatch loops iterate the sorted slice and leave at the first match. Engine R: no residual contains a literal identifier starting with a registered default prefix; emitted function and helper names are NAME/FUNC holes (equivariance under the prefix map). Not decided: textual identity of two runs.",
+		explanation: "G8: 33 NewPlugin registrations with unique names, unique default prefixes each starting with exactly one \"derive\" (so -prefix substitution is a pure renaming), all listed once in main, all deps keys bound; SetPrefix only from main before NewPlugins; the prefix is strings.Replace(default,\"derive\",*prefix,1) or the verbatim override; NewPlugins sorts before storing; the sort comparator is tabulated over the finite orderings of (length, string) and must be longest-first, irreflexive, asymmetric, total on equal lengths, and may index only the slice being sorted; both dispatch loops iterate the sorted slice and leave at the first match. Engine R: no residual contains a literal identifier starting with a registered default prefix; emitted function and helper names are NAME/FUNC holes (equivariance under the prefix map). Not decided: textual identity of two runs. Added: the -prefix substitution dominates SetPrefix.",
 		assumptions: commonAssumptions,
 		technique:   "custom static analysis: registry extraction, abstract evaluation of the comparator over a finite ordering table, CFG first-match rule, residual scope lint",
 	}
